@@ -1408,8 +1408,8 @@ pub fn scenarios(tier: Tier) -> u64 {
     DIRECTED
         + enumerated_count(tier)
         + match tier {
-            Tier::Quick => 1_500,
-            Tier::Thorough => 40_000,
+            Tier::Quick => 12_000,
+            Tier::Thorough => 250_000,
         }
 }
 
